@@ -27,7 +27,7 @@ ASSUMPTIONS = [
     "Eigen stand-in; g++ 12 / clang++ 14",
 ]
 
-N = {"quick": {"cpp": 12, "py": 40}, "thorough": {"cpp": 240, "py": 1200}}
+N = {"quick": {"cpp": 12, "py": 30}, "thorough": {"cpp": 240, "py": 1200}}
 N_POINTS = 6
 
 
@@ -35,7 +35,7 @@ def plan(tier, seed):
     units = [{"uid": f"cpp{i}", "kind": "cpp", "i": i} for i in range(N[tier]["cpp"])]
     units += [{"uid": f"probe{i}", "kind": "probe", "i": i} for i in range(4 if tier == "quick" else 40)]
     # value-only programs with angle-wrap idioms (asin(sin u) ...), CSE on vs off vs oracle
-    units += [{"uid": f"wrap{i}", "kind": "wrap", "i": i, "wraps": True} for i in range(24 if tier == "quick" else 600)]
+    units += [{"uid": f"wrap{i}", "kind": "wrap", "i": i, "wraps": True} for i in range(16 if tier == "quick" else 600)]
     units += [{"uid": f"py{i}", "kind": "py", "i": i} for i in range(N[tier]["py"])]
     return units
 
